@@ -90,3 +90,40 @@ package proxy
 //@ lemmafn C19_other_secret_rejected(enc int, uri string, secret string, other string, secs int, now int)
 //@   requires hmacOf(other, uri + itoa(secs)) != hmacOf(secret, uri + itoa(secs))
 //@   ensures [C19] rejected: !acceptsSigned(enc, uri, b64enc(enc, hmacOf(other, uri + itoa(secs))), itoa(secs), secret, now)
+
+// ---- C06: the proxy's login flow ---------------------------------------------------------------------------
+//@ func (p *OAuthProxy) redeemCode(host string, code string) (*sessions.SessionState, error)
+//@   modifies clock
+//@   fresh result.0
+//@   ensures [C06] redeemed_with_email: result.1 == nil ==> result.0 != nil && result.0.Email != "" && called(@Redeem#1) && @Redeem#1.1 == nil && result.0 == @Redeem#1.0 && arg(@Redeem#1, 2) == code
+//@   ensures [C06] empty_code_refused: code == "" ==> result.1 != nil && !called(@Redeem#1)
+
+// OAuthStart records the URL the browser asked for and seals that one record twice: once into the CSRF
+// cookie, once into the state parameter handed to the authenticator.
+//@ func (p *OAuthProxy) OAuthStart(rw http.ResponseWriter, req *http.Request, tags []string)
+//@   requires fresh_response: rw.$status == 0
+//@   let rec1 = unbox(arg(@Marshal#1, 1), "*proxy.StateParameter")
+//@   ensures [C06] records_requested_url: called(@Marshal#1) ==> called(@String#1) && arg(@String#1, 0) == old(req.URL) && at(@Marshal#1, rec1.RedirectURI) == @String#1
+//@   ensures [C06] same_record_sealed_twice: called(@Marshal#2) ==> called(@Marshal#1) && arg(@Marshal#2, 1) == arg(@Marshal#1, 1) && arg(@Marshal#2, 0) == arg(@Marshal#1, 0) && arg(@Marshal#1, 0) == p.cookieCipher
+//@   ensures [C06] cookie_gets_first_seal: called(@SetCSRF#1) ==> called(@Marshal#1) && @Marshal#1.1 == nil && arg(@SetCSRF#1, 1) == rw && arg(@SetCSRF#1, 3) == @Marshal#1.0
+//@   ensures [C06] state_gets_second_seal: called(@GetSignInURL#1) ==> called(@Marshal#2) && @Marshal#2.1 == nil && arg(@GetSignInURL#1, 2) == @Marshal#2.0 && called(@SetCSRF#1) && at(@GetSignInURL#1, arg(@GetSignInURL#1, 1).Host) == old(req.Host)
+//@   ensures [C06] redirect_to_sign_in: rw.$status == 302 ==> called(@GetSignInURL#1) && called(@String#2) && arg(@String#2, 0) == @GetSignInURL#1 && rw.$location == @String#2
+//@   ensures [C06] no_session_cookie: rw.$sessionCookie == old(rw.$sessionCookie)
+
+// state / csrf: the two sealed values the request carries. ST / CS: the records they opened to.
+//@ func (p *OAuthProxy) OAuthCallback(rw http.ResponseWriter, req *http.Request)
+//@   requires fresh_response: rw.$status == 0 && rw.$sessionCookie == 0
+//@   let F = at(@ParseForm#1, req.Form)
+//@   let state = formGet(F, "state")
+//@   let csrf = at(@GetCSRF#1, @GetCSRF#1.0.Value)
+//@   let ST = unbox(arg(@Unmarshal#1, 2), "*proxy.StateParameter")
+//@   let CS = unbox(arg(@Unmarshal#2, 2), "*proxy.StateParameter")
+//@   sink [C06] both_sealed_by_this_proxy: SaveSession requires called(@ParseForm#1) && @ParseForm#1 == nil && called(@Unmarshal#1) && @Unmarshal#1 == nil && arg(@Unmarshal#1, 0) == p.cookieCipher && arg(@Unmarshal#1, 1) == state && called(@GetCSRF#1) && @GetCSRF#1.1 == nil && arg(@GetCSRF#1, 1) == req && called(@Unmarshal#2) && @Unmarshal#2 == nil && arg(@Unmarshal#2, 0) == p.cookieCipher && arg(@Unmarshal#2, 1) == csrf
+//@   sink [C06] different_ciphertexts_same_record: SaveSession requires state != csrf && at(@Unmarshal#2, ST.SessionID == CS.SessionID && ST.RedirectURI == CS.RedirectURI)
+//@   sink [C06] code_redeemed_and_user_allowed: SaveSession requires called(@redeemCode#1) && @redeemCode#1.1 == nil && arg(@redeemCode#1, 1) == req.Host && arg(@redeemCode#1, 2) == formGet(F, "code") && formGet(F, "error") == "" && called(@RunValidators#1) && arg(@RunValidators#1, 0) == p.Validators && arg(@RunValidators#1, 1) == @redeemCode#1.0 && len(@RunValidators#1) < len(p.Validators)
+//@   sink [C06 C13] session_bound_to_host: SaveSession requires $arg0 == rw && $arg2 == @redeemCode#1.0 && $arg2.AuthorizedUpstream == req.Host
+//@   ensures [C06] returns_to_recorded_url: rw.$sessionCookie == 1 ==> rw.$status == 302 && rw.$location == at(@Unmarshal#2, ST.RedirectURI) && called(@ClearCSRF#1)
+//@   ensures [C06] no_cookie_otherwise: !(called(@SaveSession#1) && @SaveSession#1 == nil) ==> rw.$sessionCookie == 0
+//@   ensures [C06] failure_is_not_a_redirect: rw.$sessionCookie != 1 ==> rw.$status != 302
+//@   loop 1
+//@     invariant true
